@@ -25,16 +25,25 @@ def setIndex (b : Option BitArr) (i : Int) : Option Unit :=
 def copyBits (bits : Int) : Option BitArr :=
   if numElems bits < 0 then none else some { bits := bits, elems := (numElems bits).toNat }
 
-/-- `a.Sub(o)`: nil if either is nil; result has `a`'s bits; the loop runs to
-`min(len a.Elems, len o.Elems)` over the RESULT's elements -/
-def sub (a o : Option BitArr) : Option (Option BitArr) :=
+/-- the loop of `Sub`, `for i := 0; i < bound; i++ { c.Elems[i] &^= o.Elems[i] }`, indexes the
+words of the RESULT and of the ARGUMENT: in range iff `bound ≤ len(c.Elems)` and
+`bound ≤ len(o.Elems)` -/
+def subLoopOk (bound cElems oElems : Nat) : Bool := decide (bound ≤ cElems) && decide (bound ≤ oElems)
+
+/-- `a.Sub(o)` with the loop bound as a parameter (a function of `len(a.Elems)`, `len(o.Elems)`,
+`len(c.Elems)`): nil if either is nil; the result `c = a.copyBits(a.Bits)` has `a`'s bits -/
+def subWith (bound : Nat → Nat → Nat → Nat) (a o : Option BitArr) : Option (Option BitArr) :=
   match a, o with
   | none, _ => some none
   | _, none => some none
   | some x, some y =>
     match copyBits x.bits with
     | none => none
-    | some c => if min x.elems y.elems > c.elems then none else some (some c)
+    | some c => if subLoopOk (bound x.elems y.elems c.elems) c.elems y.elems then some (some c) else none
+
+/-- `a.Sub(o)`: the code's bound is `smaller := MinInt(len(bA.Elems), len(o.Elems))`, which is what
+makes arrays of DIFFERENT sizes safe in both directions -/
+def sub (a o : Option BitArr) : Option (Option BitArr) := subWith (fun ae oe _ => min ae oe) a o
 
 /-- `a.Or(o)` -/
 def or (a o : Option BitArr) : Option (Option BitArr) :=
